@@ -96,7 +96,7 @@ func h64(b []byte) uint64 { return core.HashBytes(0, b) }
 
 func hs(s string) uint64 { return core.HashStr(0, s) }
 
-var c19Kinds = []string{"decode", "encode", "cipher1", "cipher2", "cipher3", "mac1", "mac2", "mac3", "accessor", "ident", "lists", "misc", "qos", "pco", "uepolicy", "count-alloc", "shared-encode", "shared-getters", "handoff", "zones", "mac0", "getters", "shared-parse"}
+var c19Kinds = []string{"decode", "encode", "cipher1", "cipher2", "cipher3", "mac1", "mac2", "mac3", "accessor", "ident", "lists", "misc", "qos", "pco", "uepolicy", "count-alloc", "shared-encode", "shared-getters", "handoff", "zones", "mac0", "getters", "shared-parse", "rx-handoff"}
 
 // scr overwrites a slice the library RETURNED to this goroutine (after its digest was
 // taken): the memory is the caller's. If the library handed the same memory to another
@@ -356,6 +356,44 @@ func c19Run(sh *c19Shared, it c19Item) (res uint64) {
 			rx := nasConvert.NewProtocolConfigurationOptions()
 			return c19Handoff(rx, rx.UnMarshal, pcoContents(r, r.Intn(8)), pcoContents(r, r.Intn(8)))
 		}
+	case "rx-handoff":
+		// the receive loop of a server: every packet is read into ONE receive buffer,
+		// decoded, and the decoded message handed to a worker, while the loop reads the
+		// next packet into the same buffer. Half of the packets end with their last
+		// mandatory element.
+		rx := make([]byte, 4096)
+		var acc uint64
+		done := make(chan uint64, 4)
+		n := 2 + r.Intn(3)
+		for i := 0; i < n; i++ {
+			def := sh.gmm[r.Intn(len(sh.gmm))]
+			mode := 0
+			if r.Bool() {
+				mode = r.Intn(9)
+			}
+			pdu := refcodec.RandomPlan(def, r, mode, r.Intn(6)).Bytes()
+			if len(pdu) > len(rx) {
+				pdu = pdu[:len(rx)]
+			}
+			win := rx[:copy(rx, pdu)]
+			m := nas.NewMessage()
+			if err := m.PlainNasDecode(&win); err != nil {
+				acc ^= hs(err.Error())
+				done <- 0
+				continue
+			}
+			go func() {
+				out, err := m.PlainNasEncode()
+				done <- h64(out) ^ hs(fmt.Sprint(err)) ^ fingerprint(reflect.ValueOf(m))
+			}()
+		}
+		for i := range rx {
+			rx[i] = 0xa5
+		}
+		for i := 0; i < n; i++ {
+			acc ^= <-done
+		}
+		return acc
 	case "zones":
 		// instants in zones with daylight saving of one hour, thirty minutes and two hours
 		loc := c17Loc(r.Intn(len(c17Locations)))
@@ -794,7 +832,7 @@ func init() {
 		// cold starts under the race detector: the first use of each group of operations in a
 		// process is made by 32 goroutines at once (lazily built tables and caches are then built
 		// under contention, and the detector sees the unsynchronised publication)
-		for gi, g := range [][]string{{"mac1", "cipher1"}, {"mac2", "cipher2"}, {"mac3", "cipher3", "mac0"}, {"getters", "ident", "shared-parse"}, {"lists", "misc", "zones"}, {"qos", "pco", "uepolicy", "handoff"}, {"decode", "encode", "accessor"}} {
+		for gi, g := range [][]string{{"mac1", "cipher1"}, {"mac2", "cipher2"}, {"mac3", "cipher3", "mac0"}, {"getters", "ident", "shared-parse"}, {"lists", "misc", "zones"}, {"qos", "pco", "uepolicy", "handoff", "rx-handoff"}, {"decode", "encode", "accessor"}} {
 			us = append(us, coldUnitN("nas", gi+1, 32, g...))
 		}
 		// long storms of the keyed algorithms: 32 goroutines x 200 (thorough 2000) light items of one
